@@ -14,6 +14,9 @@
 //	CHistoryX one more such history in which backends are restarted on their address (graceful
 //	          stop = GOAWAY) or reset the connections they accepted while they stay in the table:
 //	          the pooled channel has to connect again for the next call (Model/GrpcTransport.v)
+//	CListeners histories on processes started by the real config.Load + main.go:startServers with
+//	          SEVERAL gRPC listeners (plain and TLS, every order of 1 to 3): calls for plain and TLS
+//	          backends through each listener (listeners.go, Model/GrpcListeners.v)
 //	CQuiet    histories of calls that are silent for 33 s (45 s) and pauses, each on one backend,
 //	          through a second listener process, and by clients of the harness (quiet.go,
 //	          Model/GrpcKeepalive.v); they run in the background for the whole run
@@ -759,6 +762,8 @@ func main() {
 	quiet := startQuiet(run)
 	// compiled and started while the hook-driven parts run
 	drv := startDriver(false, 150)
+	// likewise: the real config.Load + startServers with several gRPC listeners per process (listeners.go)
+	ldrv := startListenersDriver(run, false, 150)
 	phase := time.Now()
 	lap := func(name string) {
 		run.Notes["seconds_"+name] = time.Since(phase).Seconds()
@@ -775,6 +780,8 @@ func main() {
 	lap("session")
 	limitCases(run, r)
 	lap("limits")
+	listenersCases(run, backends, tlsBackend, ldrv)
+	lap("listeners")
 	quiet.collect(run)
 	lap("waiting_for_quiet_calls")
 
@@ -1380,6 +1387,130 @@ func (d *driver) stop() {
 	os.RemoveAll(d.dir)
 }
 
+// one call through the proxy; returns the case pieces
+type callResult struct {
+	chosen   string // "" = nobody
+	chosenOK bool
+	ciTerm   string
+	chosenT  string
+	bvT      string
+	cv       cview
+	sample   map[string]interface{}
+	class    string
+	upT      string
+	mdT      string
+}
+
+func doOneCall(run *vh.Run, r *rand.Rand, cc *grpc.ClientConn, tbl route.Table, txt string, unreachable map[string]bool, calls int, forceMethod string) (res callResult, ok bool) {
+	kind := r.Intn(6)
+	method := methodPool[r.Intn(len(methodPool))]
+	if r.Intn(16) == 0 {
+		// still "/service/method" for grpc-go; net/url decodes, splits or rejects them
+		method = []string{"/pkg.Svc/G%65t", "/pkg.Svc/Get%zz", "/pkg.Svc/Get?x=/other.Api/", "/%6fther.Api/X", "/pkg.Svc/Get#frag", "/pkg.Svc/%zz"}[r.Intn(6)]
+	}
+	if forceMethod != "" {
+		method = forceMethod
+	}
+	md := genMD(r, mdKeys, 4)
+	addDstHost(r, md)
+	sc := &script{hdr: genMD(r, mdKeys[:9], 3), trl: genMD(r, mdKeys[:9], 3), earlyHdr: r.Intn(2) == 0}
+	if r.Intn(3) > 0 {
+		sc.code = uint32(1 + r.Intn(16))
+		if r.Intn(8) == 0 {
+			sc.code = uint32(17 + r.Intn(80))
+		}
+		sc.msg = statusMsgs[r.Intn(len(statusMsgs))]
+	}
+	nreq, nresp := r.Intn(5), r.Intn(5)
+	allowBig := calls%7 == 0
+	switch kind {
+	case kUnary:
+		nreq, nresp = 1, 1
+		if sc.code != 0 {
+			nresp = 0
+		}
+	case kServerStream:
+		nreq = 1
+	case kClientStream:
+		nresp = 1
+		if sc.code != 0 {
+			nresp = 0
+		}
+	case kPingPong:
+		sc.mode = modePingPong
+	case kEarlyFail:
+		sc.mode = modeEarlyFail
+		nresp = 0
+		if sc.code == 0 {
+			sc.code = uint32(codes.FailedPrecondition)
+			sc.msg = "early"
+		}
+	}
+	reqs := genMsgs(r, nreq, allowBig)
+	sc.msgs = genMsgs(r, nresp, allowBig)
+	for _, m := range append(append([][]byte{}, reqs...), sc.msgs...) {
+		if !wellFormed(m) {
+			panic("generator produced a malformed protobuf payload")
+		}
+	}
+	curScript.Store(sc)
+	seenMu.Lock()
+	seen = nil
+	seenMu.Unlock()
+	cv, herr := doCall(cc, kind, method, md, reqs, nresp)
+	seenMu.Lock()
+	recs := append([]*bview(nil), seen...)
+	seenMu.Unlock()
+	id := run.NextID()
+	sample := map[string]interface{}{"table": txt, "kind": kindNames[kind], "method": method, "md": mdSample(md),
+		"requests": len(reqs), "script": map[string]interface{}{"hdr": mdSample(sc.hdr), "trl": mdSample(sc.trl), "msgs": len(sc.msgs), "code": sc.code, "msg": sc.msg},
+		"caller_saw": map[string]interface{}{"hdr": mdSample(cv.hdr), "trl": mdSample(cv.trl), "msgs": len(cv.msgs), "code": cv.code, "msg": cv.msg}}
+	if herr != "" {
+		run.Violation(id, herr, sample)
+	}
+	if len(recs) > 1 {
+		run.Violation(id, fmt.Sprintf("one call reached %d backend handlers", len(recs)), sample)
+		return res, false
+	}
+	res.chosenT, res.bvT = vh.None, vh.None
+	res.class = "call-" + kindNames[kind]
+	if len(recs) == 1 {
+		rec := recs[0]
+		select {
+		case <-rec.done:
+		case <-time.After(3 * time.Second):
+			run.Violation(id, "backend handler still running 3 s after the caller saw the end of the call", sample)
+			return res, false
+		}
+		res.chosen = rec.url
+		res.chosenT = vh.Some(vh.HxS(rec.url))
+		res.bvT = vh.Some(vh.App("mkbview", vh.HxS(rec.method), mdCoq(rec.md, transportKeysBackend), msgsCoq(rec.msgs)))
+		sample["backend"] = rec.url
+		sample["backend_saw"] = map[string]interface{}{"method": rec.method, "md": mdSample(rec.md), "msgs": len(rec.msgs)}
+	} else {
+		res.class = "call-no-backend"
+		if cv.code == uint32(codes.Unavailable) {
+			// nobody was reached and the proxy says Unavailable: the call went to the target of the
+			// matched route that cannot be reached (at most one per route, see genT); found by
+			// asking the real table which routes carry such a target and checking the model's choice
+			for _, u := range tableURLs(tbl) {
+				if unreachable[u] {
+					// the model decides whether u is a target of the route for this call
+					res.chosen = "?"
+				}
+			}
+		}
+	}
+	up, okp := parsedPath(method)
+	res.upT = optStr(up, okp)
+	res.mdT = mdCoq(md, nil)
+	res.ciTerm = vh.App("mkcallin", res.mdT, vh.HxS(method), res.upT, msgsCoq(reqs),
+		vh.App("mkscript", vh.N(sc.mode), mdCoq(sc.hdr, nil), msgsCoq(sc.msgs), mdCoq(sc.trl, nil), vh.N(int(sc.code)), vh.HxS(sc.msg)))
+	res.cv = cv
+	res.sample = sample
+	return res, true
+}
+
 const deadBackendURL = "grpc://127.0.0.1:1" // nobody listens there
 
 func session(run *vh.Run, r *rand.Rand, backends []*backend, tlsBackend *backend, d *driver) {
@@ -1468,127 +1599,8 @@ func session(run *vh.Run, r *rand.Rand, backends []*backend, tlsBackend *backend
 		return vh.List(it)
 	}
 
-	// one call; returns the case pieces
-	type result struct {
-		chosen   string // "" = nobody
-		chosenOK bool
-		ciTerm   string
-		chosenT  string
-		bvT      string
-		cv       cview
-		sample   map[string]interface{}
-		class    string
-		upT      string
-		mdT      string
-	}
-	doOne := func(r *rand.Rand, cc *grpc.ClientConn, tbl route.Table, txt string, unreachable map[string]bool, calls int, forceMethod string) (res result, ok bool) {
-		kind := r.Intn(6)
-		method := methodPool[r.Intn(len(methodPool))]
-		if r.Intn(16) == 0 {
-			// still "/service/method" for grpc-go; net/url decodes, splits or rejects them
-			method = []string{"/pkg.Svc/G%65t", "/pkg.Svc/Get%zz", "/pkg.Svc/Get?x=/other.Api/", "/%6fther.Api/X", "/pkg.Svc/Get#frag", "/pkg.Svc/%zz"}[r.Intn(6)]
-		}
-		if forceMethod != "" {
-			method = forceMethod
-		}
-		md := genMD(r, mdKeys, 4)
-		addDstHost(r, md)
-		sc := &script{hdr: genMD(r, mdKeys[:9], 3), trl: genMD(r, mdKeys[:9], 3), earlyHdr: r.Intn(2) == 0}
-		if r.Intn(3) > 0 {
-			sc.code = uint32(1 + r.Intn(16))
-			if r.Intn(8) == 0 {
-				sc.code = uint32(17 + r.Intn(80))
-			}
-			sc.msg = statusMsgs[r.Intn(len(statusMsgs))]
-		}
-		nreq, nresp := r.Intn(5), r.Intn(5)
-		allowBig := calls%7 == 0
-		switch kind {
-		case kUnary:
-			nreq, nresp = 1, 1
-			if sc.code != 0 {
-				nresp = 0
-			}
-		case kServerStream:
-			nreq = 1
-		case kClientStream:
-			nresp = 1
-			if sc.code != 0 {
-				nresp = 0
-			}
-		case kPingPong:
-			sc.mode = modePingPong
-		case kEarlyFail:
-			sc.mode = modeEarlyFail
-			nresp = 0
-			if sc.code == 0 {
-				sc.code = uint32(codes.FailedPrecondition)
-				sc.msg = "early"
-			}
-		}
-		reqs := genMsgs(r, nreq, allowBig)
-		sc.msgs = genMsgs(r, nresp, allowBig)
-		for _, m := range append(append([][]byte{}, reqs...), sc.msgs...) {
-			if !wellFormed(m) {
-				panic("generator produced a malformed protobuf payload")
-			}
-		}
-		curScript.Store(sc)
-		seenMu.Lock()
-		seen = nil
-		seenMu.Unlock()
-		cv, herr := doCall(cc, kind, method, md, reqs, nresp)
-		seenMu.Lock()
-		recs := append([]*bview(nil), seen...)
-		seenMu.Unlock()
-		id := run.NextID()
-		sample := map[string]interface{}{"table": txt, "kind": kindNames[kind], "method": method, "md": mdSample(md),
-			"requests": len(reqs), "script": map[string]interface{}{"hdr": mdSample(sc.hdr), "trl": mdSample(sc.trl), "msgs": len(sc.msgs), "code": sc.code, "msg": sc.msg},
-			"caller_saw": map[string]interface{}{"hdr": mdSample(cv.hdr), "trl": mdSample(cv.trl), "msgs": len(cv.msgs), "code": cv.code, "msg": cv.msg}}
-		if herr != "" {
-			run.Violation(id, herr, sample)
-		}
-		if len(recs) > 1 {
-			run.Violation(id, fmt.Sprintf("one call reached %d backend handlers", len(recs)), sample)
-			return res, false
-		}
-		res.chosenT, res.bvT = vh.None, vh.None
-		res.class = "call-" + kindNames[kind]
-		if len(recs) == 1 {
-			rec := recs[0]
-			select {
-			case <-rec.done:
-			case <-time.After(3 * time.Second):
-				run.Violation(id, "backend handler still running 3 s after the caller saw the end of the call", sample)
-				return res, false
-			}
-			res.chosen = rec.url
-			res.chosenT = vh.Some(vh.HxS(rec.url))
-			res.bvT = vh.Some(vh.App("mkbview", vh.HxS(rec.method), mdCoq(rec.md, transportKeysBackend), msgsCoq(rec.msgs)))
-			sample["backend"] = rec.url
-			sample["backend_saw"] = map[string]interface{}{"method": rec.method, "md": mdSample(rec.md), "msgs": len(rec.msgs)}
-		} else {
-			res.class = "call-no-backend"
-			if cv.code == uint32(codes.Unavailable) {
-				// nobody was reached and the proxy says Unavailable: the call went to the target of the
-				// matched route that cannot be reached (at most one per route, see genT); found by
-				// asking the real table which routes carry such a target and checking the model's choice
-				for _, u := range tableURLs(tbl) {
-					if unreachable[u] {
-						// the model decides whether u is a target of the route for this call
-						res.chosen = "?"
-					}
-				}
-			}
-		}
-		up, okp := parsedPath(method)
-		res.upT = optStr(up, okp)
-		res.mdT = mdCoq(md, nil)
-		res.ciTerm = vh.App("mkcallin", res.mdT, vh.HxS(method), res.upT, msgsCoq(reqs),
-			vh.App("mkscript", vh.N(sc.mode), mdCoq(sc.hdr, nil), msgsCoq(sc.msgs), mdCoq(sc.trl, nil), vh.N(int(sc.code)), vh.HxS(sc.msg)))
-		res.cv = cv
-		res.sample = sample
-		return res, true
+	doOne := func(r *rand.Rand, cc *grpc.ClientConn, tbl route.Table, txt string, unreachable map[string]bool, calls int, forceMethod string) (callResult, bool) {
+		return doOneCall(run, r, cc, tbl, txt, unreachable, calls, forceMethod)
 	}
 
 	const period = 5 * time.Second
